@@ -203,6 +203,36 @@ pub fn run(tier: Tier, replay: Option<Value>) -> ! {
                 cases.push(Case { script: format!("{}set -e\n{}ko 99\nok 98\n", g::PRELUDE, wrap(&p, w)), tags });
             }
         }
+        // errexit switched ON by the command itself: the shell starts without -e, the unit (function call,
+        // eval) turns it on and ends with some status; what the caller does next depends on the option as it
+        // is when the unit has finished
+        let toggles_r = vec![S::Leaf(0), S::Leaf(1), S::Ctl("set +e", None), S::Ctl("set -e", None), S::Ctl("return", Some(3))];
+        for p in g::up_to(3, &toggles_r) {
+            let mut t = vec![];
+            g::tags(&p, &mut t);
+            if !t.iter().any(|x| x == "ctl:set -e") {
+                continue;
+            }
+            let has_return = t.iter().any(|x| x.starts_with("ctl:return"));
+            let mut r = g::Render::new(false);
+            let body = r.stmt(&p);
+            let funcs: String = r.funcs.iter().map(|f| format!("{f}\n")).collect();
+            for unit in ["func", "eval", "func-in-func"] {
+                if has_return && unit == "eval" {
+                    continue;
+                }
+                let call = match unit {
+                    "func" => format!("tf() {{ {body}\n}}\ntf"),
+                    "func-in-func" => format!("tf() {{ {body}\n}}\ntg() {{ tf; ok 96; }}\ntg"),
+                    _ => format!("eval '{}'", body.replace('\'', "'\\''")),
+                };
+                let mut tags = t.clone();
+                tags.push("toggle".into());
+                tags.push("start-off".into());
+                tags.push(format!("unit:{unit}"));
+                cases.push(Case { script: format!("{}{funcs}{call}\nok 97\nko 99\nok 98\n", g::PRELUDE), tags });
+            }
+        }
         // nounset: every expansion operator on every kind of unset target
         let targets: &[(&str, &str, &str)] = &[
             ("unset-scalar", "unset v", "v"),
@@ -300,7 +330,7 @@ pub fn run(tier: Tier, replay: Option<Value>) -> ! {
         }
     }
     rep.rule = format!(
-        "all programs with <= {} nodes over leaves {{ok, ko}} containing a failing leaf, wrapped in {} exemption-relevant contexts ({}), under {} option sets ({}); all programs with <= 3 nodes over {{ok, ko, set +e, set -e}} (toggles) in 4 contexts; {} nounset probes (expansion forms x unset-target kinds x word/assignment position); run as script files; non-trivial = bash does not reach end=0",
+        "all programs with <= {} nodes over leaves {{ok, ko}} containing a failing leaf, wrapped in {} exemption-relevant contexts ({}), under {} option sets ({}); all programs with <= 3 nodes over {{ok, ko, set +e, set -e}} (toggles) in 4 contexts; all programs with <= 3 nodes over {{ok, ko, set +e, set -e, return 3}} containing `set -e`, run as a function / nested function / eval unit in a shell that starts WITHOUT errexit, followed by ok, ko, ok; {} nounset probes (expansion forms x unset-target kinds x word/assignment position); run as script files; non-trivial = bash does not reach end=0",
         tier.pick(4, 5),
         WRAPPERS.len(),
         WRAPPERS.iter().map(|w| w.0).collect::<Vec<_>>().join(", "),
